@@ -1272,11 +1272,15 @@ func unchoke(peer *Peer, unchoke bool) error {
 		if err == nil {
 			atomic.StoreUint32(&peer.amUnchoking, 0)
 			atomic.AddInt32(&numUnchoking, -1)
-			for _, r := range peer.requested {
+			for len(peer.requested) > 0 {
+				r := peer.requested[0]
 				err := reject(peer, r.Index, r.Begin, r.Length)
 				if err != nil {
 					return err
 				}
+				// don't reject it a second time, let alone
+				// serve it, if we get interrupted.
+				peer.requested = peer.requested[1:]
 			}
 			peer.requested = nil
 			peer.unchokeTime = time.Now()
